@@ -22,20 +22,25 @@ func VerifH_C09_encoding() {
 	tb, tt := GetTermBytes(x)
 	vAssert("C09.enc.number-type", tt == TermNumber && len(tb) == 8)
 	back := GetBytesTerm(tb, tt).(float64)
-	vAssert("C09.enc.number-roundtrip", math.Float64bits(back) == math.Float64bits(x) || (x != x && back != back))
+	// loss-free up to the sign of zero: -0 and +0 are one number and one term
+	vAssert("C09.enc.number-roundtrip", math.Float64bits(back) == math.Float64bits(x) || (x != x && back != back) || (x == 0 && back == 0))
+	zb, _ := GetTermBytes(math.Copysign(0, -1))
+	pb, _ := GetTermBytes(0.0)
+	vAssert("C09.enc.zero-is-one-term", bytes.Equal(zb, pb))
 	s := vNondetString("s", 2)
 	sb, st := GetTermBytes(s)
 	vAssert("C09.enc.string-roundtrip", st == TermString && GetBytesTerm(sb, st).(string) == s)
 	vAssume(x == x && y == y)
 	ub, _ := GetTermBytes(y)
 	c := bytes.Compare(tb, ub)
-	if x >= 0 && y >= 0 && !math.Signbit(x) && !math.Signbit(y) {
+	// stated over numeric values (zero of either sign is a non-negative number)
+	if x >= 0 && y >= 0 {
 		vAssert("C09.enc.order-nonneg", (c < 0) == (x < y) && (c == 0) == (x == y))
 	}
-	if math.Signbit(x) && math.Signbit(y) {
-		vAssert("C09.enc.order-neg", (c < 0) == (x > y))
+	if x < 0 && y < 0 {
+		vAssert("C09.enc.order-neg", (c < 0) == (x > y) && (c == 0) == (x == y))
 	}
-	if math.Signbit(x) && !math.Signbit(y) {
+	if x < 0 && y >= 0 {
 		vAssert("C09.enc.neg-after-nonneg", c > 0)
 	}
 }
